@@ -41,7 +41,7 @@ PROP = {
     "technique": "Lean 4 proof (refinement to list specifications; zipper splay; stale-weight invariant; generic LLRB colour/balance invariant under an abstract addressing interface) + differential replay of pkg/splay, pkg/treelist, pkg/llrb with shape dumps",
     "partial": [],
     "not_modelled": [
-        "CRDT-over-specification half: text is covered (Model/Text.lean: text_edit_spec, length_spec, style_spec over every reachable block list); array/object/counter are covered (Model/Json.lean, Props/C07Json.lean: every json-layer call refines list insert/erase/move, finite-map update and BitVec addition in every reachable state); tree: local edits by index/path and index<->path conversions are tied by the random stream of the `tree` engine against Model/Tree.lean and an XML reference (no sequential-specification theorem for trees; listed deviations c19-path-tombstone / c19-path-mixed-content; c19-findpos-after-element is repaired, 74247a0f)",
+        "CRDT-over-specification half: text is covered (Model/Text.lean: text_edit_spec, length_spec, style_spec over every reachable block list); array/object/counter are covered (Model/Json.lean, Props/C07Json.lean: every json-layer call refines list insert/erase/move, finite-map update and BitVec addition in every reachable state); tree: local edits by index/path and index<->path conversions are tied by the random stream of the `tree` engine against Model/Tree.lean and an XML reference (no sequential-specification theorem for trees; listed deviation c19-path-mixed-content; c19-path-tombstone (c7104fed) and c19-findpos-after-element are repaired, 74247a0f)",
         "Text: TextValue.Split round-trips both halves through a Go string, so a cut inside a surrogate pair replaces both halves by U+FFFD (all replicas agree; content is altered): the plain splice statement is proved under the decidable condition Aligned (text_edit_spec_partial), the unconditional text_edit_spec carries sanitize, text_edit_spec_witness exhibits the case",
         "negative indices (FindForText with index < 0 returns the leftmost node with a negative offset and no error; FindForArray/Find reject them)",
         "calls outside the pointer preconditions (splay: InsertAfter after an unlinked node, Delete of an unlinked node -- which empties the whole tree --, DeleteRange with the right boundary not after the left; treelist: InsertAfter/Delete of an unlinked node): the Go trees get corrupted or panic; both sides print `precond` and skip such calls; llrb Remove of an absent key panics in Go and is modelled (`removePanics`)",
